@@ -30,8 +30,12 @@ def _case(check: Check, case, record=False):
         f2["z"] = [numpy.nan if k in cc.Z_NULLS_D2 else 10.0 + k for k in range(n)]
         d1 = (f1, {"a": sym_vector("a", n), "b": sym_vector("b", n)})
         d2 = (f2, {"a": sym_vector("c", n), "b": sym_vector("d", n)})
+        import pandas
+
+        f3 = pandas.DataFrame({"a": pandas.Categorical(["p", "q", "r", "p", "q", "r", "p"]), "B": f1["B"], "z": f1["z"]})
+        d3 = (f3, {"A": sym_vector("e", n), "b": sym_vector("g", n)})
         with symbolic_pipeline():
-            return cc.run_history(formula, history, {1: d1, 2: d2}, same_cell, lambda num: dict(num))
+            return cc.run_history(formula, history, {1: d1, 2: d2, 3: d3}, same_cell, lambda num: dict(num))
 
     def claims(res):
         problems, cl = res
@@ -47,7 +51,7 @@ def _case(check: Check, case, record=False):
             yield f"[{tag}] {label}", conj(cs)
 
     def rep(model, label):
-        tag = label[1 : label.index("]")]
+        tag = label[1 : label.index("]")] if label.startswith("[") and "]" in label else None
         p = {"kind": "c18_history", "formula": formula, "history": list(history), "tag": tag}
         bad = replays.run(p)
         return ("history", bad, p) if bad else None
@@ -73,6 +77,8 @@ def run(check: Check) -> None:
     rng.shuffle(h3)
     hist += h3 if thorough else h3[:60]
     cases = [(f, h) for f in cc.all_formulas(check.seed, thorough) for h in hist]
+    swap = [(x, y) for x in ("M1", "U1", "F1") for y in cc.OPS3] + [(y, x) for x in ("M1", "U1", "F1") for y in cc.OPS3] + [("F1", "F3", "F1"), ("M3", "M1", "M3")]
+    cases += [(f, h) for f in cc.KIND_SWAP_FORMULAS for h in swap]
     run_cases(check, cases, _case)
     _hash_seed_companion(check)
 
